@@ -1203,6 +1203,22 @@ func (e *CEnv) call(x *CExpr) CVal {
 			}
 			r := e.fx.pendingFresh[0]
 			e.fx.pendingFresh = e.fx.pendingFresh[1:]
+			// fresh means newly allocated AND not retained by anyone else: the object is private to the
+			// caller until it lets it escape (its cells survive interference and unknown calls)
+			switch p := v.V.(type) {
+			case PtrV:
+				if p.Kind == PObj {
+					e.fx.private[r] = privInfo{t: p.Elem}
+				} else if p.Kind == PBox {
+					e.fx.private[r] = privInfo{t: p.Elem, box: true}
+				}
+			case SliceV:
+				if v.T != nil {
+					if sl, ok := under(v.T).(*types.Slice); ok {
+						e.fx.private[r] = privInfo{t: sl.Elem(), backing: true}
+					}
+				}
+			}
 			return CVal{V: c.Eq(ref, r), T: types.Typ[types.Bool]}
 		}
 		var alts []*Term
